@@ -98,17 +98,21 @@ func Bmp2Png(BmpBytes []byte) []byte {
 
 func DecodeUTF16(b []byte) string {
 	var (
-		u16s  = make([]uint16, 1)
+		u16s  = make([]uint16, 0, len(b)/2)
 		b8buf = make([]byte, 4)
 		ret   = &bytes.Buffer{}
 	)
 
 	lb := len(b)
 
-	for i := 0; i < lb; i += 2 {
-		u16s[0] = uint16(b[i]) + (uint16(b[i+1]) << 8)
-		r := utf16.Decode(u16s)
-		n := utf8.EncodeRune(b8buf, r[0])
+	// collect whole code units only (a trailing odd byte is dropped) and decode them
+	// together, so that surrogate pairs are combined
+	for i := 0; i+1 < lb; i += 2 {
+		u16s = append(u16s, uint16(b[i])+(uint16(b[i+1])<<8))
+	}
+
+	for _, r := range utf16.Decode(u16s) {
+		n := utf8.EncodeRune(b8buf, r)
 		ret.Write(b8buf[:n])
 	}
 
